@@ -43,7 +43,7 @@ def run(ctx):
     if q:
         single = [s for s in single if s["steps"][0]["cache"] in ("none", "dir")] if False else single
         single = rnd.sample(single, min(len(single), 200))
-        pairs = rnd.sample(pairs, min(len(pairs), 120))
+        # every ordered pair of lattice points sharing a cache is replayed (sharing orders are the point of this part)
     else:
         ctx.exhaustive = True
     items = []
@@ -51,8 +51,9 @@ def run(ctx):
         items = [json.load(open(ctx.replay_path))["replay"]]
     else:
         for k, sc in enumerate(single + pairs):
+            shared = len(sc["steps"]) > 1          # a shared cache only matters to the engine that stores compiled code
             items.append({"steps": sc["steps"], "scripts": rnd.sample(scripts, min(nscripts, len(scripts))),
-                          "engine": ["interpreter", "compiler"][k % 2] if q else "compiler"})
+                          "engine": "compiler" if shared or not q else ["interpreter", "compiler"][k % 2]})
         if not q:
             items += [dict(i, engine="interpreter") for i in items]
     results = ctx.replay("run-cacheconf", items, timeout=3400)
